@@ -18,26 +18,40 @@
 enum { NV = 3 };
 static long g_live = 0;
 
-// stack use of List::sort: operator< of the class element kinds records the lowest and highest frame
-// address it is called with while a sort runs.  The span is (live frames of QuickSort::sort - 1) x frame
-// size; the line of a sort says `k ok` when it stays within 1 KB x (ceil(log2(size)) + 2) - the bound of
-// theorem sort_as_coded_depth_log with a generous frame size - and `k DEEP` otherwise.
-static char* g_stk_lo = 0;
-static char* g_stk_hi = 0;
+// recursion depth of List::sort: operator< of the class element kinds calls a probe that records the frame
+// address it runs at while a sort is in progress.  QuickSort::sort compares at one place, every frame of it
+// compares at least once, and two frames at the same nesting depth lie at the same address: the number of
+// DISTINCT addresses seen is the number of frames of QuickSort::sort that were live at the deepest point.  The
+// line of every operation ends in `k <frames>` (0 when nothing was measured: no sort, fewer than two
+// elements, element kind int); the model prints sort_depth there (theorems sort_as_coded_depth_is_printed_depth,
+// sort_printed_depth_log: 2 ^ depth <= size), and the check's judge compares the number with log2(size).
+static char** g_frames = 0;   // sorted, distinct
+static long g_nframes = 0, g_capframes = 0;
+static char* g_last = 0;
 static bool g_stk_on = false;
-static bool g_deep = false;
+static long g_depth = 0;
 static long g_stack_kb = 0; // case config `stack=<KB>`: sort() runs on a thread with a stack of that size
-static inline void stk_probe()
+__attribute__((noinline)) static void stk_probe()
 {
   if(!g_stk_on) return;
   char* p = (char*)__builtin_frame_address(0);
-  if(!g_stk_lo || p < g_stk_lo) g_stk_lo = p;
-  if(!g_stk_hi || p > g_stk_hi) g_stk_hi = p;
+  if(p == g_last) return;
+  g_last = p;
+  long lo = 0, hi = g_nframes;
+  while(lo < hi) { long m = (lo + hi) / 2; if(g_frames[m] < p) lo = m + 1; else hi = m; }
+  if(lo < g_nframes && g_frames[lo] == p) return;
+  if(g_nframes == g_capframes) {
+    g_capframes = g_capframes ? g_capframes * 2 : 64;
+    g_frames = (char**)realloc(g_frames, sizeof(char*) * g_capframes);
+  }
+  memmove(g_frames + lo + 1, g_frames + lo, sizeof(char*) * (g_nframes - lo));
+  g_frames[lo] = p;
+  ++g_nframes;
 }
 template<class C> static void* sort_thread(void* p) { ((C*)p)->sort(); return 0; }
 template<class C> static void run_sort(C* l)
 {
-  g_stk_lo = g_stk_hi = 0; g_stk_on = true;
+  g_nframes = 0; g_last = 0; g_stk_on = true;
   if(g_stack_kb > 0) {
     pthread_attr_t a; pthread_t th;
     pthread_attr_init(&a);
@@ -48,10 +62,7 @@ template<class C> static void run_sort(C* l)
   }
   else l->sort();
   g_stk_on = false;
-  unsigned long n = (unsigned long)l->size();
-  int lg = 0;
-  while((1UL << lg) < n) ++lg;
-  g_deep = (g_stk_hi - g_stk_lo) > 1024L * (lg + 2);
+  g_depth = g_nframes;
 }
 
 static inline int fdiv16(int v) { return v >= 0 ? v / 16 : -((-v + 15) / 16); }
@@ -293,8 +304,8 @@ template<class C> struct NodeCase
     for(int i = 0; i < NV; ++i) { printf(" "); dump_int(letter, i, *v[i]); }
     if(rit && var >= 0) { Slots<C> s(*v[var]); printf(" r %ld", s.of(rit)); }
     else printf(" r -");
-    printf(g_deep ? " k DEEP\n" : " k ok\n");
-    rit = 0; g_deep = false;
+    printf(" k %ld\n", g_depth);
+    rit = 0; g_depth = 0;
   }
   static void set_it(const C& l, const typename C::Iterator& r) { rit = (r == l.end()) ? 0 : (const void*)r.item; }
 };
